@@ -574,7 +574,7 @@ def worker_signal_during_cleanup(ctx: Ctx) -> None:
 
     cases = [(r, p) for r in ("parent-gone", "ctrl-c", "sigterm") for p in ("none", "before-kill", "after-killed", "before-push")]
     if ctx.quick:
-        cases = [c for c in cases if c[1] != "none" or c[0] == "sigterm"]
+        cases = [c for c in cases if c[1] != "none" or c[0] in ("sigterm", "parent-gone")]
     envv = dict(os.environ)
     envv["PYTHONPATH"] = os.pathsep.join(p for p in sys.path if p)
 
@@ -599,6 +599,14 @@ def worker_signal_during_cleanup(ctx: Ctx) -> None:
             continue
         st = d["status"]
         ok = st in ("success", "failed", "concurrency_controlled_final") or (st in ("registered", "rerouted", "retry") and d["owner"] is None and d["queued"] >= 1)
+        st0 = d.get("status_at_exit", st)
+        ok0 = st0 in ("success", "failed", "concurrency_controlled_final") or (st0 in ("registered", "rerouted", "retry") and d.get("owner_at_exit") is None and d["queued"] >= 1)
+        if ok and not ok0:
+            # the task thread finished the invocation AFTER the worker main had ended - in a real worker process it dies with the process
+            ctx.report(f"stop-leaves[worker-process]:{st0}:at-process-exit:{reason}",
+                       f"MultiThreadRunner worker process main ends because {reason} ({'returned' if d['returned'] else 'raised ' + str(d['error'])}) and leaves its RUNNING invocation {st0} under "
+                       f"{d.get('owner_at_exit')} (queued {d['queued']}x): the clean-up did not run; the task thread dies with the process", rep)
+            continue
         if not ok:
             ctx.report(f"stop-leaves[worker-process]:{st}:sigterm-{point}",
                        f"MultiThreadRunner worker process cleaning up because {reason}, a further SIGTERM arrives {point}: the RUNNING invocation ends {st}, owner {d['owner']}, queued {d['queued']}x "
